@@ -134,6 +134,21 @@ def _law(g):
                 except Exception:  # noqa: BLE001   (whether these raise is not judged; what they leave behind is)
                     pass
         return law
+    if via == "after-loose-questions":
+        # a fresh object that was first asked every scalar question of the lattice (forwards, both branches) with a LOOSE
+        # tolerance (1e-2, and the default): the tolerance requested afterwards is the one that counts
+        law = cls(E, K, n, g["K_p"])
+        import warnings
+        with warnings.catch_warnings():
+            warnings.simplefilter("ignore")
+            for L in _axis(g, True):
+                for meth in ("stress", "stress_secondary_branch"):
+                    for kw in ({"rtol": 1e-2, "tol": 1e-2}, {}):
+                        try:
+                            getattr(law, meth)(float(L), **kw)
+                        except Exception:  # noqa: BLE001   (the warm-up is not judged)
+                            pass
+        return law
     if via == "sibling-set-K":
         # ... or whose sibling (the other law class, same material, constructed right after it) had its K' changed
         from pylife.materiallaws.notch_approximation_law import ExtendedNeuber as EN
@@ -623,7 +638,7 @@ def run_shard(shard):
         run_gross(shard, acc)
         return acc
     for T in shard["tolerances"]:
-        for branch, via in [(b, v) for b in BRANCHES for v in ("fresh", "set-K", "set-Kp", "after-raise", "sibling-set-K")]:
+        for branch, via in [(b, v) for b in BRANCHES for v in ("fresh", "set-K", "set-Kp", "after-raise", "sibling-set-K", "after-loose-questions")]:
             g = {"law": shard["law"], "mat": shard["mat"], "K_p": shard["K_p"], "factors": shard["factors"], "T": T, "T0": shard["tolerances"][0], "branch": branch, "via": via}
             law = _law(g)
             R = Ref(g)
